@@ -333,7 +333,6 @@ class Check(object):
         """Build the Coq closure of props/<prop>.v; returns True iff every
         obligation in the closure was discharged."""
         pf = "props/%s.v" % self.prop
-        coq_makefile()
         closure = dep_closure(pf)
         obl = obligations(closure)
         self.cov["obligations"] = len(obl)
